@@ -26,7 +26,7 @@ type c03Scen struct {
 
 var c03RootsCurly = []string{"/a", "/{t}", "/a/b", "/a/{t}", "/b", "/", "/ab", "/{t}/b", "/a/{t}/{u}", "/{t}/{u}/c/d", "/{t}/b/{u}", "/a/b/{t}"}
 var c03RootsJSR = []string{"/a", "/b", "/a/b", "/ab", "/", "/b/a"}
-var c03Segs = []string{"a", "{v}", "b", "{v:[0-9]+}", "ab", "{v:[a-z]+}"}
+var c03Segs = []string{"a", "{v}", "b", "{v:[0-9]+}", "ab", "{v:[a-z]+}", "c++"} // the last one: a literal with characters that mean something else in a query string
 
 // shape erases variable names (and, for the exclusion the statement makes, is compared only among
 // same-method routes): templates that differ only in variable names have the same shape.
